@@ -27,12 +27,16 @@ RULE = ("random discrete data sets with 1..12 columns, declared cardinalities 1.
         "frame: not states unless state_names declare them), state_names as list/tuple, ints or floats, shuffled, "
         "with an extra key.  Streams: (local) for each data frame EVERY (variable, parent subset) pair: the five "
         "local scores vs the model (rel. 1e-9) for ess in {1, 2.5, 5, 10} (10 also as the default argument) and "
-        "{0.001, 0.1, 0.3, 64, 1000} on frames with up to 3000 rows, parents as list or tuple, under a parent "
+        "{0.001, 0.1, 0.3, 64, 1000} on frames with up to 3000 rows, parents as list, tuple, one-shot iterator, generator, set, dict view, ndarray or pandas Index (names "
+        "rebuilt as equal-but-not-identical objects), a column with 257..300 states, integer labels beyond 2^24 "
+        "and 2^31, under a parent "
         "permutation and a row permutation, again after other calls on the same scorer objects, and the coded "
         "sums vs the closed forms of Spec.v; the caller's frame, state_names and parent list are compared with a "
         "snapshot afterwards; unknown variable / parent and state_names lacking an observed state must raise.  "
         "(total) score(model) incl. structure prior and prior ratios on random DAGs (BayesianNetwork and DAG, "
-        "1..12 nodes, edgeless, node subsets), metrics.structure_score with default and explicit arguments and its "
+        "1..17 nodes, edgeless, node subsets; in every graph stream a random subset (none / some / all) of the "
+        "MEASURED nodes is marked latent through the constructor, add_node or add_nodes_from: the marking must not "
+        "change a score), metrics.structure_score with default and explicit arguments and its "
         "four rejection paths.  (cache) ScoreCache call sequences with eviction (max_size 0, 1..3, 10000, default; "
         "values, hit/miss pattern, LRU order), then ScoreCache.score(model) on a random DAG = the wrapped score's "
         "score(model) = the model's total incl. structure prior, and the cache's prior / prior ratios = the wrapped "
@@ -126,6 +130,27 @@ NAME_POOLS = {
 INDEX_MODES = ["range", "range", "shifted", "permuted", "gapped", "dup", "str"]
 
 
+def gen_wide(rng):
+    """three columns, the first with 257..300 states that all occur (more than 256 states / int8 category codes)"""
+    K = rng.choice([257, 260, 300])
+    c1, c2 = rng.choice([2, 3]), rng.choice([1, 2, 3])
+    rows = [[k, rng.randrange(c1), rng.randrange(c2)] for k in range(K)]
+    rows += [[rng.randrange(K), rng.randrange(c1), rng.randrange(c2)] for _ in range(rng.choice([0, 40, 150]))]
+    for t in range(c1):
+        rows[t][1] = t
+    for t in range(c2):
+        rows[t][2] = t
+    rng.shuffle(rows)
+    st0 = rng.choice(["int", "cat"])
+    lab0 = [3 * k + 1 for k in range(K)] if st0 == "int" else ["w%03d" % k for k in range(K)]
+    st1, lab1 = gen_labels(rng, rng.choice(["int", "cat"]), c1)
+    st2, lab2 = gen_labels(rng, rng.choice(["int", "cat"]), c2)
+    return {"cards": [K, c1, c2], "rows": rows, "declared": [False, False, False], "style": [st0, st1, st2],
+            "catmode": ["tight"] * 3, "snseed": rng.randint(0, 10**6), "labels": [lab0, lab1, lab2],
+            "names": ["wide", "p", "q"], "namepool": "letters", "index": rng.choice(INDEX_MODES),
+            "colorder": [0, 1, 2], "snform": "asis"}
+
+
 def gen_labels(rng, style, c):
     """an injective labelling state index -> value of the column (the scores are symmetric in the states, so the
     model never needs the labels): integers that are not their positions, floats, booleans, strings of which one
@@ -135,7 +160,8 @@ def gen_labels(rng, style, c):
     if style == "int":
         return style, rng.choice([list(range(c)), list(range(1, c + 1)), list(range(c - 1, -1, -1)),
                                   [10 * k + 3 for k in range(c)], [-k for k in range(c)], [7, 3, 5, 1][:c],
-                                  [10**6 + k for k in range(c)]])
+                                  [10**6 + k for k in range(c)], [2**24 + 1 + k for k in range(c)],
+                                  [2**31 + 3 * k for k in range(c)]])
     if style == "float":
         return style, rng.choice([[k + 0.5 for k in range(c)], [-1.25, 0.0, 2.5, 0.001][:c],
                                   [1e6 + 0.25 * k for k in range(c)]])
@@ -153,6 +179,7 @@ def present(rng, data, plain=False):
         return data
     pool = rng.choice(["letters", "letters", "substr", "keyword", "odd"])
     names = list(NAME_POOLS[pool])
+    names += ["%s%d" % (names[t % 12], t) for t in range(12, n)]
     rng.shuffle(names)
     data["names"] = names[:n]
     data["namepool"] = pool
@@ -179,7 +206,8 @@ def present(rng, data, plain=False):
 
 
 def colnames(data):
-    return data.get("names") or COLS[:len(data["cards"])]
+    n = len(data["cards"])
+    return data.get("names") or (COLS + ["V%d" % t for t in range(12, n)])[:n]
 
 
 def col_labels(data, i):
@@ -330,7 +358,8 @@ def close(a, b, tol=1e-9):
 
 # ------------------------------------------------------------------ cases
 def local_opts(rng):
-    return {"ess_default": rng.random() < 0.5, "tuple_parents": rng.random() < 0.2, "recall": rng.random() < 0.3,
+    return {"ess_default": rng.random() < 0.5, "tuple_parents": rng.random() < 0.15, "recall": rng.random() < 0.3,
+            "parents_as": rng.choice(["list", "list", "list", "iter", "gen", "set", "keys", "ndarray", "index"]),
             "reject": rng.random() < 0.15}
 
 
@@ -391,12 +420,25 @@ def cases(tier, seed):
         o["big"] = True
         out.append({"kind": "local", "data": data, "x": x, "ps": ps, "ess": rng.choice([0.001, 0.1, 0.3, 64, 1000]),
                     "pseed": rng.randint(0, 10**6), "opts": o})
-    # score(model), priors, structure_score wrapper; every 5th frame has 9..12 columns
+    # more than 256 states in one column (as child, as parent, in a network)
+    for f in range(3 if quick else 20):
+        data = gen_wide(rng)
+        x, ps = rng.choice([(0, [1]), (1, [0]), (1, [0, 2]), (0, []), (2, [1, 0])])
+        o = local_opts(rng)
+        o["big"] = True
+        o["reject"] = False
+        out.append({"kind": "local", "data": data, "x": x, "ps": ps, "ess": rng.choice(ESS),
+                    "pseed": rng.randint(0, 10**6), "opts": o})
+        if f % 3 == 0:
+            out.append({"kind": "total", "data": data, "nodes": [0, 1, 2], "edges": rng.choice([[[0, 1], [1, 2]], [[1, 0], [2, 0]]]),
+                        "ess": rng.choice(ESS), "cls": rng.choice(["bn", "dag"]), "latents": rand_latents(rng, [0, 1, 2]),
+                        "opts": {}})
+    # score(model), priors, structure_score wrapper; every 5th frame has 9..17 columns
     for f in range(40 if quick else 400):
         ncols = rng.choice([2, 3, 4, 5, 6])
         big = f % 5 == 4
         if big:
-            ncols = rng.choice([9, 10, 12])
+            ncols = rng.choice([9, 10, 12, 17])
         data = present(rng, gen_data(rng, ncols, rng.choice([2, 4, 8, 16, 30]), maxcard=3 if big else 4))
         nodes, edges = common.rand_dag(rng, ncols, p=(rng.choice([0.1, 0.2, 0.3]) if big else None))
         if rng.random() < 0.25 and ncols > 2:
@@ -406,7 +448,7 @@ def cases(tier, seed):
         if rng.random() < 0.1:
             edges = []
         out.append({"kind": "total", "data": data, "nodes": nodes, "edges": [list(e) for e in edges],
-                    "ess": rng.choice(ESS), "cls": rng.choice(["bn", "dag"]),
+                    "ess": rng.choice(ESS), "cls": rng.choice(["bn", "dag"]), "latents": rand_latents(rng, nodes),
                     "opts": {"ess_default": rng.random() < 0.5, "method_default": rng.random() < 0.5,
                              "reject": rng.random() < 0.3}})
     # ScoreCache
@@ -427,7 +469,7 @@ def cases(tier, seed):
             calls.append([k[0], ps])
         cnodes, cedges = common.rand_dag(rng, ncols, p=rng.choice([0.3, 0.6]))
         out.append({"kind": "cache", "data": data, "score": rng.choice([0, 1, 2, 2, 3, 4]), "ess": rng.choice(ESS),
-                    "nodes": cnodes, "edges": [list(e) for e in cedges],
+                    "nodes": cnodes, "edges": [list(e) for e in cedges], "latents": rand_latents(rng, cnodes),
                     "max_size": rng.choice([0, 1, 1, 2, 2, 3, 10000, None]) if f % 8 == 0 else rng.choice([1, 2, 2, 3]),
                     "calls": calls})
     # sessions on one scorer / one cache / one graph object with edits through every mutator
@@ -437,14 +479,14 @@ def cases(tier, seed):
         nodes, edges, ops = gen_session(rng, ncols)
         out.append({"kind": "session", "data": data, "score": rng.choice([0, 1, 2, 2, 3, 4]), "ess": rng.choice(ESS),
                     "cls": rng.choice(["bn", "dag"]), "max_size": rng.choice([1, 2, 3, 50]),
-                    "nodes": nodes, "edges": edges, "ops": ops})
+                    "nodes": nodes, "edges": edges, "ops": ops, "latents": rand_latents(rng, nodes)})
     # Markov-equivalent pairs by covered-arc reversals
     for f in range(40 if quick else 400):
         ncols = rng.choice([2, 3, 4, 5])
         data = present(rng, gen_data(rng, ncols, rng.choice([3, 6, 12, 25]), allow_unobs_states=(f % 2 == 0)))
         nodes, edges = common.rand_dag(rng, ncols, p=rng.choice([0.5, 0.7, 0.9]))
         out.append({"kind": "equiv", "data": data, "nodes": nodes, "edges": [list(e) for e in edges],
-                    "ess": rng.choice(ESS), "rseed": rng.randint(0, 10**6)})
+                    "ess": rng.choice(ESS), "rseed": rng.randint(0, 10**6), "latents": rand_latents(rng, nodes)})
     return out
 
 
@@ -540,10 +582,30 @@ def run_local(case, drv):
     sig0 = frame_sig(df, sn)
     sc = scorers(df, sn, ess, opts.get("ess_default", False))
     names = [cn[p] for p in ps]
-    arg = tuple(names) if opts.get("tuple_parents") else list(names)
+    pform = "tuple" if opts.get("tuple_parents") else opts.get("parents_as", "list")
+    arg = tuple(names) if pform == "tuple" else list(names)
+
+    def parents_arg():
+        """the parents in every documented 'list-like' form; one-shot iterators are rebuilt for every call"""
+        import numpy as np
+        import pandas as pd
+        fn = [fresh_name(nm) for nm in names]
+        if pform == "iter":
+            return iter(fn)
+        if pform == "gen":
+            return (nm for nm in fn)
+        if pform == "set":
+            return set(fn)
+        if pform == "keys":
+            return dict.fromkeys(fn).keys()
+        if pform == "ndarray":
+            return np.array(fn, dtype=object)
+        if pform == "index":
+            return pd.Index(fn)
+        return arg
     impl = {}
     for k in SCORES:
-        impl[k] = float(sc[k].local_score(cn[x], arg))   # the SAME argument object for all five scorers
+        impl[k] = float(sc[k].local_score(fresh_name(cn[x]), parents_arg()))   # list/tuple: the SAME object for all five
     coded, spec = model_local(drv, data, data["rows"], x, ps, ess)
     q, qobs, r, robs = data_stats(data, x, ps)
     tags = ["local", "parents=%d" % len(ps), "ess=%s" % ess, "r=%d" % r,
@@ -555,8 +617,7 @@ def run_local(case, drv):
     tags += cat_tags(data, df, cn, [x] + ps) + pres_tags(data, [x] + ps)
     if opts.get("ess_default") and ess == 10:
         tags.append("ess-default-argument")
-    if opts.get("tuple_parents"):
-        tags.append("parents-as-tuple")
+    tags.append("parents-as-" + pform)
     key = common.canon_key(["local", data["cards"], sorted(map(tuple, data["rows"])), x, sorted(ps), ess,
                             data["declared"], data.get("names"), data.get("labels"), data.get("index")])
     if list(arg) != names or frame_sig(df, sn) != sig0:
@@ -645,13 +706,54 @@ def run_local(case, drv):
 
 
 # ------------------------------------------------------------------ score(model), priors, structure_score
+def fresh_name(nm):
+    """an equal but not identical object (names handed to pgmpy are rebuilt at run time)"""
+    return (nm + "_")[:-1] if isinstance(nm, str) else nm
+
+
 def build_graph(case, cls, cn):
+    """nodes / edges / latents of the case as a DAG or BayesianNetwork.  A non-empty latents set marks MEASURED
+    variables as latent (constructor argument, add_node(latent=True) or add_nodes_from(latent=True)): scoring
+    is about the columns of the data, the marking must not change any score."""
     from pgmpy.base import DAG
     from pgmpy.models import BayesianNetwork
-    g = BayesianNetwork() if cls == "bn" else DAG()
-    g.add_nodes_from([cn[v] for v in case["nodes"]])
-    g.add_edges_from([(cn[u], cn[v]) for u, v in case["edges"]])
+    klass = BayesianNetwork if cls == "bn" else DAG
+    lat = [v for v in case.get("latents", []) if v in case["nodes"]]
+    route = (len(case["edges"]) + len(lat)) % 3
+    if lat and route == 0 and case["edges"]:
+        # latent nodes must be known when declared through the constructor: use the arcs as ebunch
+        incident = {v for e in case["edges"] for v in e}
+        g = klass([(fresh_name(cn[u]), fresh_name(cn[v])) for u, v in case["edges"]],
+                  latents={fresh_name(cn[v]) for v in lat if v in incident})
+        for v in case["nodes"]:
+            if v not in incident:
+                g.add_node(fresh_name(cn[v]), latent=(v in lat))
+        return g
+    g = klass()
+    if lat and route == 1:
+        g.add_nodes_from([fresh_name(cn[v]) for v in case["nodes"] if v not in lat])
+        g.add_nodes_from([fresh_name(cn[v]) for v in lat], latent=True)
+    else:
+        for v in case["nodes"]:
+            g.add_node(fresh_name(cn[v]), latent=(v in lat))
+    g.add_edges_from([(fresh_name(cn[u]), fresh_name(cn[v])) for u, v in case["edges"]])
     return g
+
+
+def lat_tags(case):
+    lat = [v for v in case.get("latents", []) if v in case["nodes"]]
+    if not lat:
+        return ["latents=none"]
+    return ["latents=all" if len(lat) == len(case["nodes"]) else "latents=some"]
+
+
+def rand_latents(rng, nodes):
+    r = rng.random()
+    if r < 0.45 or not nodes:
+        return []
+    if r < 0.55:
+        return list(nodes)
+    return rng.sample(list(nodes), rng.randint(1, len(nodes)))
 
 
 def graph_sig(g):
@@ -669,7 +771,7 @@ def run_total(case, drv):
     gs0 = graph_sig(g)
     same, totals = drv.call("c10_total", [data["cards"], data["rows"], case["nodes"], case["edges"], Fraction(ess)])
     tags = ["total", "nodes=%d" % len(case["nodes"]), "edges=%d" % len(case["edges"]), "graph=" + case["cls"],
-            "node-set=columns" if same else "node-subset"] + pres_tags(data, case["nodes"])
+            "node-set=columns" if same else "node-subset"] + pres_tags(data, case["nodes"]) + lat_tags(case)
     key = common.canon_key(["total", data["cards"], sorted(map(tuple, data["rows"])), sorted(case["nodes"]),
                             sorted(map(tuple, case["edges"])), ess, data["declared"], data.get("names"),
                             data.get("labels"), data.get("index")])
@@ -802,7 +904,7 @@ def run_cache(case, drv):
         for op in ("+", "-", "flip"):
             if not close(float(cache.structure_prior_ratio(op)), float(fresh.structure_prior_ratio(op)), 1e-12):
                 return bad("impl:cache-structure-prior-ratio", {"op": op}, key=key, tags=tags)
-        tags.append("cache-score(model)")
+        tags += ["cache-score(model)"] + lat_tags(case)
     evicted = (len(case["calls"]) - hits) > len(final)
     return ok(nontrivial=hits > 0, key=key, tags=tags + (["eviction"] if evicted else []) + (["hit"] if hits else []))
 
@@ -819,7 +921,7 @@ def run_session(case, drv):
     plain = scorers(df, sn, ess)[name]
     cached = ScoreCache(scorers(df, sn, ess)[name], df, max_size=case["max_size"], **({"state_names": sn} if sn else {}))
     g = build_graph(case, case["cls"], cn)
-    tags = ["session", "score=" + name, "graph=" + case["cls"], "ops=%d" % len(case["ops"])] + pres_tags(data, [])
+    tags = ["session", "score=" + name, "graph=" + case["cls"], "ops=%d" % len(case["ops"])] + pres_tags(data, []) + lat_tags(case)
     key = common.canon_key(["session", data["cards"], sorted(map(tuple, data["rows"])), code, ess, case["ops"],
                             case["nodes"], case["edges"], data.get("names")])
     idx = {nm: i for i, nm in enumerate(cn)}
@@ -870,7 +972,7 @@ def run_session(case, drv):
         elif kind == "remove_nodes_from":
             g.remove_nodes_from([cn[v] for v in op[1]])
         elif kind == "add_node":
-            g.add_node(cn[op[1]])
+            g.add_node(cn[op[1]], latent=bool(op[2]) if len(op) > 2 else False)
         elif kind == "add_nodes_from":
             g.add_nodes_from([cn[v] for v in op[1]])
         elif kind == "clear":
@@ -933,7 +1035,7 @@ def gen_session(rng, ncols):
             edges = {e for e in edges if not (set(e) & set(vs))}
         elif k == "add_node":
             v = rng.randrange(ncols)
-            ops.append(["add_node", v])
+            ops.append(["add_node", v, rng.random() < 0.4])
             nodes.add(v)
         elif k == "add_nodes_from":
             vs = rng.sample(range(ncols), rng.randint(1, min(3, ncols)))
@@ -974,7 +1076,7 @@ def run_equiv(case, drv):
     g2 = build_graph(c2, "dag", cn)
     _, t1 = drv.call("c10_total", [data["cards"], data["rows"], nodes, case["edges"], Fraction(ess)])
     _, t2 = drv.call("c10_total", [data["cards"], data["rows"], nodes, c2["edges"], Fraction(ess)])
-    tags = ["equiv", "reversals=%d" % nrev, "edges=%d" % len(edges)] + pres_tags(data, nodes)
+    tags = ["equiv", "reversals=%d" % nrev, "edges=%d" % len(edges)] + pres_tags(data, nodes) + lat_tags(case)
     key = common.canon_key(["equiv", data["cards"], sorted(map(tuple, data["rows"])), sorted(edges), sorted(edges2),
                             ess, data["declared"], data.get("names"), data.get("labels")])
     for i, k in enumerate(SCORES):
